@@ -299,4 +299,5 @@ def historical(run, n):
 
 
 def replay(run, driver, payload):
-    explore(run, driver, "quick")
+    # the generators are driven by the seed and pass recorded in the replay file (set by main): the same pass is re-run
+    explore(run, driver, run.budget)
